@@ -7,6 +7,9 @@ from harness.common import Failure, Spec, coq_list, coq_option
 
 # case = {"kind": ["list", f1, f2, ce] | ["gather", ce] | ["race"],
 #         "inputs": [[canc, pre]]   canc = ["nothing"] | ["succeed", z] | ["fail", n];  pre = None | outcome
+#         "chained": [bool]  input i was ALREADY FIRED (.called) when handed to the aggregate but its chain is suspended on
+#                            a pending inner Deferred (succeed(x).addCallback(lambda _: inner)): it has delivered nothing;
+#                            ["fire", i, o] fires the inner one; cancel() reaches the inner one's canceller (canc)
 #         "ops": [["fire", i, outcome] | ["cancel"]]}       outcome = ["ok", z] | ["err", n]
 
 
@@ -57,10 +60,15 @@ def impl(case) -> str:
         else:
             d.errback(UserErr(o[1]))
 
-    ds = []
+    ds, targets = [], []
+    chained = case.get("chained") or [False] * n
     for i, (beh, pre) in enumerate(case["inputs"]):
         d = defer.Deferred(canceller=mk_canceller(i, beh))
-        ds.append(d)
+        targets.append(d)
+        if chained[i] and pre is None:
+            ds.append(defer.succeed("start").addCallback(lambda _, d=d: d))     # called, waiting on d
+        else:
+            ds.append(d)
         if pre is not None:
             fire(d, pre)
 
@@ -106,8 +114,8 @@ def impl(case) -> str:
     for op in case["ops"]:
         if op[0] == "fire":
             i = op[1]
-            if i < n and not ds[i].called:
-                fire(ds[i], op[2])
+            if i < n and not targets[i].called:
+                fire(targets[i], op[2])
         else:
             agg.cancel()
     return " ".join(log) + " | " + " ".join(seen)
@@ -273,7 +281,8 @@ def gen(rng, tier):
                         cut = rng.randrange(len(ops) + 2)
                         if cut <= len(ops) and rng.random() < 0.5:
                             ops = ops[:cut] + [["cancel"]] + ops[cut:]
-                        cases.append({"kind": kind, "inputs": inputs, "ops": ops})
+                        cases.append({"kind": kind, "inputs": inputs, "ops": ops,
+                                      "chained": [rng.random() < 0.3 for _ in range(n)]})
     for _ in range(400 if tier == "quick" else 3000):
         kind = rng.choice(KINDS)
         n = rng.choice([1, 2, 3, 5, 8, 13, 25, 40])
@@ -285,12 +294,21 @@ def gen(rng, tier):
             else:
                 i = rng.randrange(n)
                 ops.append(["fire", i, _rand_out(rng, i)])
-        cases.append({"kind": kind, "inputs": inputs, "ops": ops})
+        cases.append({"kind": kind, "inputs": inputs, "ops": ops, "chained": [rng.random() < 0.3 for _ in range(n)]})
     return cases
 
 
 def corpus():
     return [
+        # inputs that have already fired (.called) but are waiting on a chained inner Deferred when the aggregate is cancelled
+        {"kind": ["list", False, False, False], "inputs": [[["nothing"], None], [["nothing"], ["ok", 11]], [["fail", 7], None]],
+         "chained": [True, False, True], "ops": [["cancel"]]},
+        {"kind": ["gather", False], "inputs": [[["succeed", 5], None], [["nothing"], None]], "chained": [True, False],
+         "ops": [["fire", 1, ["ok", 11]], ["cancel"]]},
+        {"kind": ["race"], "inputs": [[["nothing"], None], [["nothing"], None], [["succeed", 5], None]],
+         "chained": [True, False, True], "ops": [["fire", 1, ["ok", 11]]]},
+        {"kind": ["list", True, False, True], "inputs": [[["nothing"], None], [["nothing"], None]], "chained": [True, True],
+         "ops": [["cancel"], ["fire", 0, ["ok", 10]]]},
         {"kind": ["race"], "inputs": [[["nothing"], None], [["succeed", 55], None], [["fail", 7], None], [["nothing"], ["err", 3]]],
          "ops": [["fire", 0, ["ok", 10]], ["cancel"]]},
         {"kind": ["race"], "inputs": [[["nothing"], None], [["nothing"], ["ok", 11]], [["succeed", 5], None]], "ops": []},
@@ -315,8 +333,10 @@ def to_coq(case):
     kind = f"(KList {b(k[1])} {b(k[2])} {b(k[3])})" if k[0] == "list" else f"(KGather {b(k[1])})" if k[0] == "gather" else "KRace"
     def canc(c):
         return "CNothing" if c[0] == "nothing" else f"(CSucceed ({c[1]})%Z)" if c[0] == "succeed" else f"(CFail {c[1]})"
-    inputs = coq_list([f"({canc(c)}, {coq_option(None if p is None else _out_coq(p), 'outcome')})" for c, p in case["inputs"]],
-                      "(cbeh * option outcome)")
+    ch = case.get("chained") or [False] * len(case["inputs"])
+    inputs = coq_list([f"({canc(c)}, {coq_option(None if p is None else _out_coq(p), 'outcome')}, "
+                       f"{'true' if ch[i] and p is None else 'false'})" for i, (c, p) in enumerate(case["inputs"])],
+                      "input")
     ops = coq_list(["CancelAgg" if o[0] == "cancel" else f"Fire {o[1]} {_out_coq(o[2])}" for o in case["ops"]], "op")
     return f"({kind}, {inputs}, {ops})"
 
@@ -328,7 +348,10 @@ def shrink(case):
     n = len(case["inputs"])
     if n > 1:
         # drop the last input (and the ops that mention it)
-        yield {**case, "inputs": case["inputs"][:-1], "ops": [o for o in ops if o[0] == "cancel" or o[1] < n - 1]}
+        yield {**case, "inputs": case["inputs"][:-1], "chained": (case.get("chained") or [False] * n)[:-1],
+               "ops": [o for o in ops if o[0] == "cancel" or o[1] < n - 1]}
+    if any(case.get("chained") or []):
+        yield {**case, "chained": [False] * n}
     for i, (c, p) in enumerate(case["inputs"]):
         if c[0] != "nothing":
             ins = list(case["inputs"])
@@ -347,7 +370,8 @@ SPEC = Spec(
     rule="for each of the 8 DeferredList flag combinations, gatherResults (consumeErrors on/off) and race: every firing "
          "permutation x success/failure assignment x number of pre-fired inputs (a prefix of the permutation) for 1..3 "
          "inputs (quick; 3 sampled 35%) / 1..4 (thorough; 4 sampled 50%), random canceller behaviour per input "
-         "(does nothing / fires with a value / fires with a failure), the aggregate cancelled at a random point in half "
+         "(does nothing / fires with a value / fires with a failure), 30% of the unfired inputs already .called but waiting on "
+         "a chained inner Deferred, the aggregate cancelled at a random point in half "
          "of them; plus random cases with up to 40 inputs; non-trivial = the aggregate fired; distinct by (case, observation)",
     trusted=["hand-written model coq/C04/Model.v (tied by this correspondence run only)",
              "callbacks added by the harness to the aggregate and (after construction) to the inputs only record"],
